@@ -78,18 +78,32 @@ func (s *Sched) hbClockObj(o *obj) {
 
 // EnvEvent records an operation of the running thread on an environment object (fake
 // transport ...) with a result, for the fingerprint.
+//
+// Synchronisation (race tracker): a connection synchronises like net.Conn does: its read side
+// and its write side are each guarded by their own lock (concurrent Reads are ordered, and so
+// are concurrent Writes, but a Read and a Write are not ordered with each other), Close is
+// ordered with both. res 4 = write-side operation, 5 = close, anything else = read side.
 func EnvEvent(o *EnvObj, res int) {
 	s := S
 	if s.cur != nil && !s.aborting {
 		s.hbEvent(s.cur, []*obj{&o.o}, 1000+res)
-		o.sync.Touch()
+		switch res {
+		case 4:
+			o.wsync.Touch()
+		case 5:
+			o.sync.Touch()
+			o.wsync.Touch()
+		default:
+			o.sync.Touch()
+		}
 	}
 }
 
 // EnvObj is the happens-before identity of a scenario object.
 type EnvObj struct {
-	o    obj
-	sync SyncObj
+	o     obj
+	sync  SyncObj // read side (and everything else)
+	wsync SyncObj // write side
 }
 
 var cache map[uint64]int16
